@@ -13,10 +13,13 @@ def jobs(tier):
     for kind, kn in ((1, "counter"), (0, "register")):
         for sn, dag in LINEAR.items():
             n = dag.count("|") + 1
-            js.append({"id": f"O.seek.{kn}.{sn}", "func": "VerifH_C03_SeekTo", "conf": {"n": n, "kind": kind, "dag": dag, "orders": "two", "shortid": 0},
+            js.append({"id": f"O.seek.{kn}.{sn}", "func": "VerifH_C03_SeekTo", "conf": {"n": n, "kind": kind, "dag": dag, "orders": "two", "shortid": 0, "del": -1},
                        "_obligation": "O", "_covers": ["sought"], "unwind": 40, "reset_mode": True})
         n = 3 if tier == "quick" else 4
-        js.append({"id": f"O.seek.{kn}.any-dag.n{n}", "func": "VerifH_C03_SeekTo", "conf": {"n": n, "kind": kind, "dag": "", "orders": "all", "shortid": 0},
+        js.append({"id": f"O.seek.{kn}.any-dag.n{n}", "func": "VerifH_C03_SeekTo", "conf": {"n": n, "kind": kind, "dag": "", "orders": "all", "shortid": 0, "del": -1},
+                   "_obligation": "O", "_covers": ["sought"], "unwind": 40, "reset_mode": True})
+    for kind, kn in ((1, "counter"), (0, "register")):
+        js.append({"id": f"O.seek.{kn}.linear-3.last-commit-deletes", "func": "VerifH_C03_SeekTo", "conf": {"n": 3, "kind": kind, "dag": "-|0|1", "orders": "two", "shortid": 0, "del": 2},
                    "_obligation": "O", "_covers": ["sought"], "unwind": 40, "reset_mode": True})
     js.append({"id": "twin", "func": "VerifH_C03_Reach", "conf": {"dag": "", "orders": "all", "shortid": 0}, "_obligation": "vacuity", "_expect": "twin", "_covers": ["end"]})
     return js
